@@ -397,6 +397,18 @@ def NodeF(x: int, tag: int = 0, fail_on: int = -1) -> int:
     return x + tag
 
 
+@workflow.define(outputs=["x", "y"])
+def TwoBranches(x: int, a_fails: bool = False):
+    """a (may fail) -> b -> x next to c -> d -> y; x is added before y"""
+    a = workflow.add(Node(x=x, tag=1, fail=a_fails), name="a")
+    c = workflow.add(Node(x=x, tag=2), name="c")
+    b = workflow.add(Node(x=a.out, tag=3), name="b")
+    d = workflow.add(Node(x=c.out, tag=4), name="d")
+    xx = workflow.add(Node(x=b.out, tag=5), name="x")
+    yy = workflow.add(Node(x=d.out, tag=6), name="y")
+    return xx.out, yy.out
+
+
 @workflow.define(outputs=["d", "i"])
 def SplitPartialFail(xs: list[int], fail_on: int = -1):
     """a split node of which one element fails, a node depending on it, and an independent chain"""
